@@ -1321,7 +1321,12 @@ class Model:
     """
 
     def __init__(self, num_qubits, dims=None, **params):
-        self.num_qubits = num_qubits if num_qubits is not None else N
+        if num_qubits is None:
+            if dims is None:
+                raise ValueError("Either num_qubits or dims must be given.")
+            # one component system per entry of dims
+            num_qubits = len(dims)
+        self.num_qubits = num_qubits
         self.dims = dims if dims is not None else num_qubits * [2]
         self.params = deepcopy(params)
         self._controls = {}
